@@ -9,6 +9,8 @@ import LexprModel.ListOps
 import LexprModel.Generated.Tables
 import LexprModel.SerdeDrv
 import LexprModel.Macro
+import LexprModel.ConsOps
+import LexprModel.ConsOpsDatum
 
 open Lexpr Lexpr.Parse
 
@@ -637,6 +639,158 @@ def execOpts (t : List String) : String :=
     | none => "bad-op"
   | _ => "bad-op"
 
+/-! ### hand-written Clone / PartialEq / Drop of `Cons` and `SpanInfo`, mutators, iterator accessors
+    (harness/src/cons_ops.rs; model LexprModel/ConsOps.lean, ConsOpsDatum.lean) -/
+
+/-- `encValueL` with floats always as bits (also NaN) -/
+partial def encBitsL : Value → List String
+  | .number (.flt b) => ["D" ++ pad16 (natHex b)]
+  | .cons a d => "c" :: (encBitsL a ++ encBitsL d)
+  | .vector xs => s!"V{xs.length}" :: xs.flatMap encBitsL
+  | v => encValueL v
+
+def encBits (v : Value) : String := " ".intercalate (encBitsL v)
+
+def bch (x : Bool) : String := if x then "1" else "0"
+
+/-- `clone <value> ;; <value>` -/
+def execClone (t : List String) : String :=
+  let (v, r1, _) := decValue (t.drop 1) []
+  let (w, _, _) := decValue (r1.drop 1) []
+  match ConsOps.cloneV v with
+  | .panic _ => "PANIC"
+  | .ok c =>
+    let eq := ConsOps.eqV
+    let head := s!"cl {encBits c} | {bch (eq v c)}{bch (eq c v)} {bch (eq v w)}{bch (eq w v)}{bch (ConsOps.neV v w)}"
+    match v, w with
+    | .cons a d, .cons a' d' =>
+      (match ConsOps.Cons.cloneLoop a d with
+       | .ok cc =>
+         let ccEq := match cc with | .cons x y => ConsOps.Cons.eqLoop a d x y | _ => false
+         s!"{head} C{bch (ConsOps.Cons.eqLoop a d a' d')}{bch (ConsOps.Cons.eqLoop a' d' a d)}{bch ccEq} {encBits cc}"
+       | .panic _ => "PANIC")
+    | .cons a d, _ =>
+      (match ConsOps.Cons.cloneLoop a d with
+       | .ok cc =>
+         let ccEq := match cc with | .cons x y => ConsOps.Cons.eqLoop a d x y | _ => false
+         s!"{head} c{bch ccEq} {encBits cc}"
+       | .panic _ => "PANIC")
+    | _, _ => head ++ " -"
+
+def datumStr (tag : String) (d : Datum) : String :=
+  tag ++ " " ++ encBits d.value ++ " @ " ++ " ".intercalate (encInfo d.value d.info)
+
+/-- `dclone <fast> <R10> <hex text> <hex text>` -/
+def execDclone (t : List String) : String :=
+  match t with
+  | _ :: fast :: ro :: rest =>
+    let a := unhex (rest.headD "")
+    let b := unhex ((rest.drop 1).headD "")
+    let cfg := mkCfg ro (fast == "1")
+    match fromTraitDatum cfg (initSt .slice a) with
+    | .ok d1 _ =>
+      (match ConsOps.cloneDatum d1 with
+       | .panic _ => "PANIC"
+       | .ok c =>
+         let out := datumStr "dtm" c ++ s!" | {bch (ConsOps.eqDatum d1 c)}{bch (ConsOps.eqDatum c d1)}"
+         let out := out ++ (match fromTraitDatum cfg (initSt .slice b) with
+           | .ok d2 _ =>
+             let e := ConsOps.eqDatum d1 d2
+             s!" {bch e}{bch (ConsOps.eqDatum d2 d1)}{bch (!e)}{bch (ConsOps.eqV d1.value d2.value)}{bch e}"
+           | _ => " rej")
+         match d1.listIter with
+         | some cur =>
+           (match cur.next with
+            | some (some item, _) =>
+              (match ConsOps.cloneDatum item with
+               | .ok sub => out ++ " | " ++ datumStr "sub" sub ++ " " ++ bch (ConsOps.eqDatum sub item)
+               | .panic _ => "PANIC")
+            | some (none, _) => out ++ " | sub none"
+            | none => "PANIC")
+         | none => out ++ " | nolist")
+    | _ => "rej"
+  | _ => "bad-op"
+
+partial def decSteps (toks : List String) (acc : List ConsOps.Step) : List ConsOps.Step :=
+  match toks with
+  | [] => acc.reverse
+  | t :: rest =>
+    let k := String.ofList (t.toList.take 2)
+    let n := ((sdrop t 2).toNat?).getD 0
+    let withVal (f : Value → ConsOps.Step) : List ConsOps.Step :=
+      let (v, r, _) := decValue rest []
+      decSteps r (f v :: acc)
+    let plain (s : ConsOps.Step) : List ConsOps.Step := decSteps rest (s :: acc)
+    match k with
+    | "sc" => withVal (.setCar n)
+    | "sd" => withVal (.setCdr n)
+    | "cm" => withVal (.carMut n)
+    | "dm" => withVal (.cdrMut n)
+    | "ca" => plain (.car n)
+    | "cd" => plain (.cdr n)
+    | "ap" => plain (.asPair n)
+    | "vs" => withVal (.sliceSet n)
+    | "ip" => plain .intoPair
+    | "tv" => plain .toVec
+    | "rv" => plain .toVec
+    | "iv" => plain .intoVec
+    | "vv" => plain .valueToVec
+    | "vr" => plain .valueToVec
+    | "ix" => plain (.index n)
+    | "it" => plain .startIter
+    | "ii" => plain .startIntoIter
+    | "li" => plain .startListIter
+    | "pk" => plain .peek
+    | "nx" => plain .next
+    | "ie" => plain .isEmpty
+    | "ps" => withVal .peekSetCar
+    | "pd" => withVal .peekSetCdr
+    | "cl" => plain .clone
+    | "eq" => withVal .eq
+    | "nc" => withVal .consOnto
+    | "nn" => withVal .consOnto
+    | "nt" => withVal .consOnto
+    | "aa" =>
+      let rec go (n : Nat) (toks : List String) (xs : List Value) : List Value × List String :=
+        match n with
+        | 0 => (xs.reverse, toks)
+        | n + 1 => let (v, r, _) := decValue toks []; go n r (v :: xs)
+      let (xs, r) := go n rest []
+      decSteps r (.appendTo xs :: acc)
+    | _ => plain .show
+
+def pairStr : Option (Value × Value) → String
+  | some (a, d) => s!"( {encBits a} . {encBits d} )"
+  | none => "_"
+
+def optBits : Option Value → String
+  | some v => encBits v
+  | none => "_"
+
+def fmtObs : ConsOps.Obs → String
+  | .done => "ok"
+  | .oob => "oob"
+  | .noCons => "nocons"
+  | .noVec => "novec"
+  | .noIter => "noit"
+  | .val v => encBits v
+  | .opt o => optBits o
+  | .optPair o => pairStr o
+  | .item (some (car, rest)) => s!"( {encBits car} {optBits rest} )"
+  | .item none => "_"
+  | .bool b => bch b
+  | .vecTail xs t => " ".intercalate (["["] ++ xs.map encBits ++ ["]", encBits t])
+  | .optVec (some xs) => "[ " ++ " ".intercalate (xs.map encBits) ++ " ]"
+  | .optVec none => "none"
+  | .panic _ => "panic"
+
+/-- `consmut <value> ;; <step> …` -/
+def execConsmut (t : List String) : String :=
+  let (root, r1, _) := decValue (t.drop 1) []
+  let steps := decSteps (r1.drop 1) []
+  " | ".intercalate ((ConsOps.run { root := root } steps).map fmtObs)
+
+
 def exec (line : String) : String :=
   let t := (line.trimAscii.toString.splitOn " ").filter (· != "")
   match t.head? with
@@ -656,6 +810,9 @@ def exec (line : String) : String :=
   | some "macro" => execMacro t
   | some "de" => execDe t
   | some "opts" => execOpts t
+  | some "clone" => execClone t
+  | some "dclone" => execDclone t
+  | some "consmut" => execConsmut t
   | some "serx" => "oracle-only"
   | some op => "unknown-op " ++ op
   | none => ""
